@@ -77,7 +77,26 @@ def leaderless_configs():
         for lost in PARTS[:2]:
             for keys in itertools.permutations(PARTS, 2):
                 out.append({"cluster": cluster_for(assign, leaderless=lost), "discovery": False, "timeout_ms": 2000,
+                            "expect_failure": True,
                             "script": [["call", "produce", payload("produce", keys), {"foe": False}]],
+                            "menu": {"reorder": True}})
+    return out
+
+
+def idle_drop_configs():
+    """A warmed-up, connected client whose connection to a broker is lost while idle (broker restart); the next
+    call must still reach that broker."""
+    out = []
+    for assign in [(0, 1, 0, 1), (0, 0, 1, 2), (0, 0, 0, 0)]:
+        cl = cluster_for(assign)
+        for victim in cl["brokers"]:
+            for api in ("produce", "fetch", "offset_commit"):
+                keys = PARTS[:3]
+                out.append({"cluster": cl, "discovery": False, "timeout_ms": 2000, "warm": [["t", "u"], ["g"]],
+                            "warm_connect": True,
+                            "script": [["cluster", "drop_conns", victim],
+                                       ["call", api, payload(api, keys), {"foe": False}],
+                                       ["call", api, payload(api, keys[::-1]), {"foe": False}]],
                             "menu": {"reorder": True}})
     return out
 
@@ -94,7 +113,7 @@ def agnostic_configs():
                     script = [["call", "metadata", ["t"]]]
                     pre = [["cluster", "down", b_] for b_ in down]
                     cfg = {"cluster": cluster, "discovery": False, "timeout_ms": 2000, "script": pre + script,
-                           "menu": MENU_AGN, "shuffle": [rot, rot]}
+                           "menu": MENU_AGN, "shuffle": [rot, rot], "expect_failure": bool(down)}
                     if warm:
                         cfg["warm"] = [["t"], []]
                         cfg["warm_connect"] = True
@@ -130,6 +149,7 @@ def run(tier, seed, only=None):
                   (1, 1, 2)),
                  ("produce-2faults", configs(tier, ["produce"], (3,), MENU)[::5], (2, 0, 2)),
                  ("leaderless", leaderless_configs(), (0, 1, 1)),
+                 ("idle-drop-then-call", idle_drop_configs(), (0, 1, 1)),
                  ("broker-agnostic", agnostic_configs(), (1, 1, 1))]
     else:
         plans = [("produce-fetch-2dev", configs(tier, ["produce", "fetch"], (1, 2, 3), MENU), (2, 1, 2)),
@@ -137,6 +157,7 @@ def run(tier, seed, only=None):
                   (2, 1, 2)),
                  ("produce-3faults", configs(tier, ["produce"], (3, 4), MENU)[::3], (3, 0, 3)),
                  ("leaderless", leaderless_configs(), (1, 1, 2)),
+                 ("idle-drop-then-call", idle_drop_configs(), (1, 1, 2)),
                  ("broker-agnostic", agnostic_configs(), (2, 1, 2))]
     if only:
         plans = [p for p in plans if p[0] in only]
